@@ -385,6 +385,7 @@ class BayesianProblem(object):
 
         # Create a copy of self
         prior_problem = copy(self)
+        prior_problem._target = copy(self._target) # the copy must not share its target: the likelihood is replaced below
 
         # Set likelihood to constant
         model = cuqi.model.LinearModel(lambda x: 0*x, lambda y: 0*y, self.model.range_geometry, self.model.domain_geometry)
